@@ -42,6 +42,41 @@ theorem methSemEW_reflected_alpha_exact (acc : Bool) (b : BinFn) (m : Meth) (h :
     simp only [methSemEW, specEW, Bool.not_true, Bool.false_eq_true, if_false] <;>
     (congr 1; funext i j; simp only [maddR, smulR]; ring)
 
+theorem methSemEW_direct_alpha (acc : Bool) (b : BinFn) (m : Meth) (h : directAlphaOK acc b m = true) (A X : Mat α n k) (a : α) :
+    methSemEW acc m A X (some a) = specEW b A X (some a) := by
+  cases acc <;> cases b <;> cases m <;> simp [directAlphaOK] at h <;>
+    simp only [methSemEW, specEW, Bool.not_true, Bool.false_eq_true, if_false] <;>
+    first
+      | rfl
+      | (congr 1; funext i j; simp only [maddR, smulR]; ring)
+
+/-- `alpha = 0`: `torch.add/sub(x, y, alpha=0)` is `x`. -/
+theorem specEW_alpha_zero (b : BinFn) (hb : b = .add ∨ b = .sub) (X Y : Mat α n k) : specEW b X Y (some 0) = .ok X := by
+  rcases hb with rfl | rfl <;> simp [specEW]
+
+/-- Operator first with `alpha`, rectangular operands. -/
+theorem evalEW_first_alpha (T : Tables) (c : String) (e : String × String) (h : firstEntryOK T c e = true)
+    (a1 : Arg) (h1 : a1.plain = true) (A X : Mat α n k) (a : α) (b : BinFn) (hb : BinFn.ofName e.1 = some b)
+    (hbb : b = .add ∨ b = .sub) : evalEW T e.1 (.op c) a1 A X (some a) = specEW b A X (some a) := by
+  simp only [firstEntryOK, Bool.and_eq_true, beq_iff_eq] at h
+  obtain ⟨hl, hm⟩ := h
+  cases hr : resolve T.classes c e.2 with
+  | none => simp [hr] at hm
+  | some d =>
+    cases hmm : Meth.ofName e.2 with
+    | none => simp [hr, hb, hmm] at hm
+    | some m =>
+      simp only [hr, hb, hmm, Bool.and_eq_true, Bool.or_eq_true, beq_iff_eq] at hm
+      obtain ⟨_, ha⟩ := hm
+      simp only [evalEW, dispatch_op_first T c e.1 e.2 d [a1] (some a) (by simpa using h1) hl hr, hmm,
+        Bool.false_eq_true, if_false]
+      have : directAlphaOK (acceptsAlpha T d e.2) b m = true := by
+        rcases ha with (ha | ha) | ha
+        · exact ha
+        · rcases hbb with h | h <;> simp [h] at ha
+        · rcases hbb with h | h <;> simp [h] at ha
+      exact methSemEW_direct_alpha _ b m this A X a
+
 /-- Elementwise two-operand call with the operator second, rectangular operands. -/
 theorem evalEW_second (T : Tables) (c : String) (e : String × String) (h : secondEntryOK T c e = true)
     (a0 : Arg) (h0 : a0.plain = true) (X A : Mat α n k) :
